@@ -82,7 +82,10 @@ func VerifC20Reputation() {
 	if e2 == q && vEq(p1, p2) {
 		n++
 	}
-	otherPrefix := (!vEq(id1, idq) && hasPrefix(id1, idq)) || (!vEq(id2, idq) && hasPrefix(id2, idq))
+	// known finding D7, get/getByID variant: the stored keys are id||counter without a separator, so the prefix
+	// search for idq also matches another id that extends idq, and an id that idq extends (its counter bytes
+	// continue the pattern)
+	otherPrefix := (!vEq(id1, idq) && (hasPrefix(id1, idq) || hasPrefix(idq, id1))) || (!vEq(id2, idq) && (hasPrefix(id2, idq) || hasPrefix(idq, id2)))
 	if otherPrefix {
 		vKnown(len(vals) == n, "C20/KF-D7-reputation-get-prefix")
 	} else {
